@@ -206,7 +206,8 @@ def analyse(prog, crates):
                 if not (a.src or c.src):
                     continue
                 n_ops += 1
-                if not (a.exact and c.exact):
+                sure_zero = kind == "div" and c.src and not c.exact and c.sure is not None and c.sure[0] <= 0 <= c.sure[1]
+                if not (a.exact and c.exact) and not sure_zero:
                     continue   # something unknown was absorbed: no basis for a report
                 ty = operand_ty(f, st[2][2]) or operand_ty(f, st[2][3])
                 r = IV.ty_range(ty) if ty else None
@@ -226,7 +227,9 @@ def analyse(prog, crates):
                     if bits and c.src and (c.hi >= bits or c.lo < 0):
                         bad = "shift amount %s can reach the width of %s" % (c, operand_ty(f, st[2][2]))
                 elif kind == "div":
-                    if c.src and c.lo <= 0 <= c.hi:
+                    if sure_zero:
+                        bad = "divisor %s can be zero (the stream sets it to any value in [%d, %d])" % (c, c.sure[0], c.sure[1])
+                    elif c.src and c.lo <= 0 <= c.hi:
                         bad = "divisor %s can be zero" % (c,)
                 if bad is None:
                     continue
@@ -284,8 +287,11 @@ def nonzero_tested(fn, l, bb):
     for b, blk in enumerate(fn.blocks):
         if blk[2] or not fn.dominates(b, bb):
             continue
+        t = blk[1]
         for st in blk[0]:
             if st[0] == "=" and st[2][0] == "bin" and st[2][1] in ("Eq", "Ne"):
+                if t[0] == "assert" and op_local(t[1]) == st[1][0]:
+                    continue    # the compiler's own `attempt to divide by zero` check is the panic, not a guard
                 for o, other in ((st[2][2], st[2][3]), (st[2][3], st[2][2])):
                     x = op_local(o)
                     if x is not None and x in al and op_const_int(other) == 0:
